@@ -442,6 +442,8 @@ class Interp(ExprEnc):
         fname = str(e.function.name).lower()
         params = e.parameters
         kw = dict(e.kw_parameters or {})
+        if fname in ('selected_real_kind', 'selected_int_kind', 'kind'):
+            return self.sem.int_lit(8)     # kind values carry no behaviour in this semantics
         if fname == 'present':
             try:
                 obj = self.find(params[0].name)
